@@ -249,6 +249,8 @@ func c09(c *engine.Ctx) {
 			}
 		}
 		c.Check(ok, "C09.R2", "crypto.FillBytes/wraps-big.Int.FillBytes", fb.Pos(), "crypto.FillBytes must report true only after b.FillBytes(to) on its own arguments")
+		n2++
+		cFillBytesGuard(c, "C09.R2")
 	}
 	c.Floor("C09.R2", 3, n2)
 
@@ -364,6 +366,55 @@ func c09(c *engine.Ctx) {
 	c.Floor("C09.R3", 3, n3)
 	c.Floor("C09.R4", 2, n4)
 	c.Floor("C09.R5", 2, n5)
+}
+
+// cFillBytesGuard: big.Int.FillBytes panics when the value needs more bytes
+// than the buffer has; crypto.FillBytes exists to turn that into "false". The
+// call must therefore lie behind a test that the byte length rounded UP,
+// (BitLen+7)/8, does not exceed len(to) (rounding down lets 8k+1..8k+7-bit
+// values through to the panic). Shared by C09.R2 and C14.R3.
+func cFillBytesGuard(c *engine.Ctx, rule string) {
+	fb := c.MustFunc(rule, "crypto", "FillBytes")
+	if fb == nil {
+		return
+	}
+	calls := engine.CallsTo(fb, false, "(*math/big.Int).FillBytes")
+	for _, call := range calls {
+		ok := engine.GuardedBy(call, func(k engine.Cmp) bool {
+			for _, q := range []engine.Cmp{k, k.Swap()} {
+				lc := engine.CallOf(q.Y)
+				if lc == nil || engine.CalleeID(lc.Common()) != "builtin.len" || engine.Unwrap(lc.Common().Args[0]) != ssa.Value(fb.Params[1]) {
+					continue
+				}
+				if q.Op != token.LEQ {
+					continue
+				}
+				// X = (BitLen(b) + 7) / 8   (or >> 3)
+				div, isDiv := engine.Unwrap(q.X).(*ssa.BinOp)
+				if !isDiv {
+					continue
+				}
+				d, isK := engine.ConstInt(div.Y)
+				if !isK || !((div.Op == token.QUO && d == 8) || (div.Op == token.SHR && d == 3)) {
+					continue
+				}
+				add, isAdd := engine.Unwrap(div.X).(*ssa.BinOp)
+				if !isAdd || add.Op != token.ADD {
+					continue
+				}
+				seven, isS := engine.ConstInt(add.Y)
+				bl := engine.CallOf(add.X)
+				if isS && seven == 7 && bl != nil && engine.CalleeID(bl.Common()) == "(*math/big.Int).BitLen" && engine.Unwrap(bl.Common().Args[0]) == ssa.Value(fb.Params[0]) {
+					return true
+				}
+			}
+			return false
+		})
+		c.Check(ok, rule, "crypto.FillBytes/size-guard-rounds-up", call.Pos(), "b.FillBytes(to) must be behind (b.BitLen()+7)/8 <= len(to); any weaker test lets a value one to seven bits too long reach the panic in big.Int.FillBytes")
+	}
+	if len(calls) == 0 {
+		c.Fail(rule, "crypto.FillBytes/size-guard-rounds-up", fb.Pos(), "crypto.FillBytes does not call big.Int.FillBytes")
+	}
 }
 
 // c09LoadOf: v is (a load of) the alloc al.
